@@ -16,7 +16,7 @@
    NOT PROVED (correspondence + oracle only): fields, dynamic-length types, explicit or bit
    positions, BYTE-SIZE, length keys (see DESIGN.md, "partial"). *)
 From Coq Require Import ZArith List Bool.
-From OV Require Import Base.Bytes Base.Wire Generated Model.Str Model.Codec Proofs.BytesProofs Proofs.AtomicProofs Proofs.CodecProps Proofs.FlatProofs Proofs.TreeProofs Proofs.TreeWireProofs Proofs.FieldProofs Proofs.DynFieldProofs Proofs.PadProofs.
+From OV Require Import Base.Bytes Base.Wire Generated Model.Str Model.Codec Proofs.BytesProofs Proofs.AtomicProofs Proofs.CodecProps Proofs.FlatProofs Proofs.TreeProofs Proofs.TreeWireProofs Proofs.FieldProofs Proofs.DynFieldProofs Proofs.PadProofs Proofs.EopFieldProofs Proofs.BStructProofs Proofs.LinearLeafProofs Proofs.ReservedProofs Proofs.BitFieldProofs Proofs.LeafKindsProofs.
 Import ListNotations.
 Open Scope Z_scope.
 
@@ -286,3 +286,223 @@ Example C01_padded_field_example :
   decode_msg (map m_p (rms rs)) (rbytes rs) = Ok (VDict (out_dict (rms rs))).
 Proof. exact padded_example. Qed.
 Print Assumptions C01_padded_field_example.
+
+(* ---------- messages which end in an END-OF-PDU-FIELD (Proofs/EopFieldProofs.v) ---------- *)
+(* good members followed by a list of structures which extends to the end of the PDU: for any number of items (none
+   included), each a structure of good members which occupies at least one byte, the message encodes to the member
+   bytes followed by the item bytes, and that PDU decodes to the given values *)
+Theorem C01_message_ending_in_end_of_pdu_field : forall k rs nm psi (items : list (list rmem)),
+  (forall x, In x rs -> rgood k x) ->
+  (forall it, In it items -> eitem_ok k psi it) ->
+  let ms := rms rs ++ [eop_member nm psi items] in
+  NoDup (map m_name ms) ->
+  let ps := map m_p ms in
+  (k + 5 <= fuel_of ps)%nat ->
+  let pdu := rbytes rs ++ concat (map rbytes items) in
+  encode_msg ps None (VDict (in_dict ms)) = Ok (pdu, false) /\
+  decode_msg ps pdu = Ok (VDict (out_dict ms)).
+Proof. exact eop_message_roundtrip. Qed.
+Print Assumptions C01_message_ending_in_end_of_pdu_field.
+
+Example C01_end_of_pdu_premises :
+  let u8 nm := mkF nm 8 BUint None true BUint None in
+  let u16le nm := mkF nm 16 BUint None false BUint None in
+  let vv (z : Z) := fun _ : name => VInt z in
+  let item (a b : Z) := [leaf_rm (u8 [97]) (vv a) (wire_bytes (u8 [97]) a); leaf_rm (u16le [98]) (vv b) (wire_bytes (u16le [98]) b)] in
+  let items := [item 1 258; item 2 772; item 255 65535] in
+  let ps_item := map m_p (rms (item 0 0)) in
+  let rs := [leaf_rm (mkF [115] 8 BUint None true BUint (Some (VInt 34))) (vv 34) (wire_bytes (mkF [115] 8 BUint None true BUint (Some (VInt 34))) 34);
+             leaf_rm (u8 [122]) (vv 9) (wire_bytes (u8 [122]) 9)] in
+  let ms := rms rs ++ [eop_member [102] ps_item items] in
+  (forall x, In x rs -> rgood 2 x) /\ (forall it, In it items -> eitem_ok 2 ps_item it) /\
+  NoDup (map m_name ms) /\ (2 + 5 <= fuel_of (map m_p ms))%nat.
+Proof. exact eop_premises. Qed.
+Print Assumptions C01_end_of_pdu_premises.
+
+Example C01_end_of_pdu_example :
+  let u8 nm := mkF nm 8 BUint None true BUint None in
+  let u16le nm := mkF nm 16 BUint None false BUint None in
+  let vv (z : Z) := fun _ : name => VInt z in
+  let item (a b : Z) := [leaf_rm (u8 [97]) (vv a) (wire_bytes (u8 [97]) a); leaf_rm (u16le [98]) (vv b) (wire_bytes (u16le [98]) b)] in
+  let items := [item 1 258; item 2 772; item 255 65535] in
+  let ps_item := map m_p (rms (item 0 0)) in
+  let rs := [leaf_rm (mkF [115] 8 BUint None true BUint (Some (VInt 34))) (vv 34) [34];
+             leaf_rm (u8 [122]) (vv 9) [9]] in
+  let ms := rms rs ++ [eop_member [102] ps_item items] in
+  let pdu := rbytes rs ++ concat (map rbytes items) in
+  pdu = [34; 9; 1; 2; 1; 2; 4; 3; 255; 255; 255] /\
+  encode_msg (map m_p ms) None (VDict (in_dict ms)) = Ok (pdu, false) /\
+  decode_msg (map m_p ms) pdu = Ok (VDict (out_dict ms)) /\
+  encode_msg (map m_p (rms rs ++ [eop_member [102] ps_item []])) None (VDict (in_dict (rms rs ++ [eop_member [102] ps_item []]))) = Ok ([34; 9], false) /\
+  decode_msg (map m_p (rms rs ++ [eop_member [102] ps_item []])) [34; 9] = Ok (VDict (out_dict (rms rs ++ [eop_member [102] ps_item []]))).
+Proof. exact eop_example. Qed.
+Print Assumptions C01_end_of_pdu_example.
+
+(* ---------- structures with a BYTE-SIZE (Proofs/BStructProofs.v) ---------- *)
+(* a structure of good members whose bytes do not exceed the declared size is a good member: zero bytes up to the
+   declared size follow its members, the decoder continues behind the declared size *)
+Theorem C01_byte_size_structure_member : forall k nm rs b,
+  (forall x, In x rs -> rgood k x) -> NoDup (map m_name (rms rs)) -> blen (rbytes rs) <= b ->
+  rgood (3 + k) (bstruct_rm nm rs b).
+Proof. exact bstruct_rgood. Qed.
+Print Assumptions C01_byte_size_structure_member.
+
+Example C01_byte_size_structure_premises :
+  let u8 nm := mkF nm 8 BUint None true BUint None in
+  let u16 nm := mkF nm 16 BUint None true BUint None in
+  let vv (z : Z) := fun _ : name => VInt z in
+  let inner := [leaf_rm (u8 [97]) (vv 7) (wire_bytes (u8 [97]) 7); leaf_rm (u16 [98]) (vv 258) (wire_bytes (u16 [98]) 258)] in
+  let rs := [leaf_rm (mkF [115] 8 BUint None true BUint (Some (VInt 34))) (vv 34) (wire_bytes (mkF [115] 8 BUint None true BUint (Some (VInt 34))) 34);
+             bstruct_rm [116] inner 5;
+             leaf_rm (u8 [122]) (vv 9) (wire_bytes (u8 [122]) 9)] in
+  (forall x, In x rs -> rgood 5 x) /\ NoDup (map m_name (rms rs)) /\ (5 + 1 <= fuel_of (map m_p (rms rs)))%nat.
+Proof. exact bstruct_premises. Qed.
+Print Assumptions C01_byte_size_structure_premises.
+
+Example C01_byte_size_structure_example :
+  let u8 nm := mkF nm 8 BUint None true BUint None in
+  let u16 nm := mkF nm 16 BUint None true BUint None in
+  let vv (z : Z) := fun _ : name => VInt z in
+  let inner := [leaf_rm (u8 [97]) (vv 7) (wire_bytes (u8 [97]) 7); leaf_rm (u16 [98]) (vv 258) (wire_bytes (u16 [98]) 258)] in
+  let mk b := [leaf_rm (mkF [115] 8 BUint None true BUint (Some (VInt 34))) (vv 34) [34];
+               bstruct_rm [116] inner b;
+               leaf_rm (u8 [122]) (vv 9) [9]] in
+  rbytes (mk 5) = [34; 7; 1; 2; 0; 0; 9] /\ rbytes (mk 3) = [34; 7; 1; 2; 9] /\
+  encode_msg (map m_p (rms (mk 5))) None (VDict (in_dict (rms (mk 5)))) = Ok (rbytes (mk 5), false) /\
+  decode_msg (map m_p (rms (mk 5))) (rbytes (mk 5)) = Ok (VDict (out_dict (rms (mk 5)))) /\
+  encode_msg (map m_p (rms (mk 3))) None (VDict (in_dict (rms (mk 3)))) = Ok (rbytes (mk 3), false) /\
+  decode_msg (map m_p (rms (mk 3))) (rbytes (mk 3)) = Ok (VDict (out_dict (rms (mk 3)))).
+Proof. exact bstruct_example. Qed.
+Print Assumptions C01_byte_size_structure_example.
+
+(* ---------- LINEAR computational methods at message level (Proofs/LinearLeafProofs.v) ---------- *)
+(* physical = offset + factor * internal (integer coefficients, any non-zero factor, optional internal limits) on an
+   unsigned object of up to 64 bits: for EVERY internal value x within the limits and the bit length, the physical
+   value encodes to the bytes of x (wire_bytes) and decodes to itself -- a good member, so it may appear in
+   structures and fields at any depth *)
+Theorem C01_linear_leaf_member : forall nm bl hl off num lo hi x,
+  0 < bl <= 64 -> num <> 0 -> 0 <= x < 2 ^ bl -> in_limits lo hi x = true ->
+  rgood 2 (lin_rm nm bl hl off num lo hi x).
+Proof. exact lin_rgood. Qed.
+Print Assumptions C01_linear_leaf_member.
+
+Theorem C01_linear_leaf_values : forall nm bl hl off num lo hi x,
+  m_in (r_m (lin_rm nm bl hl off num lo hi x)) = Some (VInt (off + num * x)) /\
+  m_out (r_m (lin_rm nm bl hl off num lo hi x)) = VInt (off + num * x) /\
+  r_w (lin_rm nm bl hl off num lo hi x) = wire_bytes (raw_fd nm bl hl) x.
+Proof. intros. repeat split; reflexivity. Qed.
+Print Assumptions C01_linear_leaf_values.
+
+Example C01_linear_premises :
+  let vv (z : Z) := fun _ : name => VInt z in
+  let rs := [leaf_rm (mkF [115] 8 BUint None true BUint (Some (VInt 34))) (vv 34) (wire_bytes (mkF [115] 8 BUint None true BUint (Some (VInt 34))) 34);
+             lin_rm [116] 8 true (-40) 2 (Some 0) (Some 200) 100;
+             lin_rm [114] 16 false 1000 (-3) None None 513] in
+  (forall x, In x rs -> rgood 2 x) /\ NoDup (map m_name (rms rs)) /\ (2 + 1 <= fuel_of (map m_p (rms rs)))%nat.
+Proof. exact linear_premises. Qed.
+Print Assumptions C01_linear_premises.
+
+Example C01_linear_example :
+  let vv (z : Z) := fun _ : name => VInt z in
+  let rs := [leaf_rm (mkF [115] 8 BUint None true BUint (Some (VInt 34))) (vv 34) [34];
+             lin_rm [116] 8 true (-40) 2 (Some 0) (Some 200) 100;
+             lin_rm [114] 16 false 1000 (-3) None None 513] in
+  rbytes rs = [34; 100; 1; 2] /\
+  in_dict (rms rs) = [([116], VInt 160); ([114], VInt (-539))] /\
+  encode_msg (map m_p (rms rs)) None (VDict (in_dict (rms rs))) = Ok (rbytes rs, false) /\
+  decode_msg (map m_p (rms rs)) (rbytes rs) = Ok (VDict (out_dict (rms rs))).
+Proof. exact linear_example. Qed.
+Print Assumptions C01_linear_example.
+
+(* ---------- RESERVED parameters (Proofs/ReservedProofs.v) ---------- *)
+(* reserved bits at an implicit position are whole zero bytes on the wire, nothing is handed to the encoder for them,
+   and the decoder steps over them: a good member *)
+Theorem C01_reserved_member : forall nm bl, 0 < bl <= 64 -> rgood 1 (reserved_rm nm bl).
+Proof. exact reserved_rgood. Qed.
+Print Assumptions C01_reserved_member.
+
+Theorem C01_reserved_values : forall nm bl,
+  m_in (r_m (reserved_rm nm bl)) = None /\ r_w (reserved_rm nm bl) = zeros (nbytes_of bl 0).
+Proof. intros. split; reflexivity. Qed.
+Print Assumptions C01_reserved_values.
+
+Example C01_reserved_example :
+  let vv (z : Z) := fun _ : name => VInt z in
+  let rs := [leaf_rm (mkF [115] 8 BUint None true BUint (Some (VInt 34))) (vv 34) [34];
+             reserved_rm [114] 12;
+             leaf_rm (mkF [122] 8 BUint None true BUint None) (vv 9) [9]] in
+  rbytes rs = [34; 0; 0; 9] /\
+  in_dict (rms rs) = [([122], VInt 9)] /\
+  encode_msg (map m_p (rms rs)) None (VDict (in_dict (rms rs))) = Ok (rbytes rs, false) /\
+  decode_msg (map m_p (rms rs)) (rbytes rs) = Ok (VDict (out_dict (rms rs))).
+Proof. exact reserved_example. Qed.
+Print Assumptions C01_reserved_example.
+
+(* ---------- bit fields: explicit BYTE- and BIT-POSITIONs (Proofs/BitFieldProofs.v) ---------- *)
+(* a STRUCTURE whose parameters are unsigned objects of 1..8 bits, all at BYTE-POSITION 0 of the structure with
+   explicit BIT-POSITIONs, on pairwise disjoint bit ranges of that byte, listed in ANY order (packed_ok): for all
+   values which fit their bit lengths the structure is a good member -- one byte on the wire, every parameter reads
+   its value back, no overlap warning *)
+Theorem C01_bit_field_structure_member : forall vv nm fs, packed_ok vv fs -> rgood 5 (packed_rm vv nm fs).
+Proof. exact packed_rgood. Qed.
+Print Assumptions C01_bit_field_structure_member.
+
+Example C01_bit_field_premises :
+  let flags := [mkBF [101] 7 1; mkBF [114] 0 1; mkBF [109] 1 3] in
+  let bv := fun nm : name => match nm with [101] => 1 | [114] => 1 | [109] => 5 | _ => 0 end in
+  packed_ok bv flags.
+Proof. exact packed_premises. Qed.
+Print Assumptions C01_bit_field_premises.
+
+Example C01_bit_field_example :
+  let vv (z : Z) := fun _ : name => VInt z in
+  let flags := [mkBF [101] 7 1; mkBF [114] 0 1; mkBF [109] 1 3] in
+  let bv := fun nm : name => match nm with [101] => 1 | [114] => 1 | [109] => 5 | _ => 0 end in
+  let rs := [leaf_rm (mkF [115] 8 BUint None true BUint (Some (VInt 98))) (vv 98) [98];
+             packed_rm bv [102] flags;
+             leaf_rm (mkF [119] 16 BUint None true BUint None) (vv 258) [1; 2]] in
+  rbytes rs = [98; 139; 1; 2] /\
+  encode_msg (map m_p (rms rs)) None (VDict (in_dict (rms rs))) = Ok (rbytes rs, false) /\
+  decode_msg (map m_p (rms rs)) (rbytes rs) = Ok (VDict (out_dict (rms rs))).
+Proof. exact packed_example. Qed.
+Print Assumptions C01_bit_field_example.
+
+(* ---------- further leaf kinds as good members (Proofs/LeafKindsProofs.v) ---------- *)
+(* whatever the raw encoder accepts for a signed integer (two's / one's complement, sign-magnitude, either byte
+   order), a byte field or an ISO-8859-1 string is a good member whose bytes are the wire bytes of the raw value *)
+Theorem C01_signed_leaf_member : forall nm bl en hl z raw,
+  0 < bl <= 64 -> (en = None \/ en = Some Enc2C \/ en = Some Enc1C \/ en = Some EncSM) ->
+  raw_of (VInt z) bl BInt en hl = Ok raw ->
+  rgood 2 (leaf_rm (mkF nm bl BInt en hl BInt None) (fun _ => VInt z) (wire_bytes (mkF nm bl BInt en hl BInt None) raw)).
+Proof. exact int_leaf_rgood. Qed.
+Print Assumptions C01_signed_leaf_member.
+
+Theorem C01_bytefield_leaf_member : forall nm hl b,
+  bytes_ok b = true -> 0 < blen b ->
+  rgood 2 (leaf_rm (mkF nm (8 * blen b) BBytes None hl BBytes None) (fun _ => VBytes b)
+                   (wire_bytes (mkF nm (8 * blen b) BBytes None hl BBytes None) (be_int b))).
+Proof. exact bytes_leaf_rgood. Qed.
+Print Assumptions C01_bytefield_leaf_member.
+
+Theorem C01_ascii_leaf_member : forall nm bl hl s raw,
+  0 < bl -> raw_of (VStr s) bl BAscii None hl = Ok raw ->
+  rgood 2 (leaf_rm (mkF nm bl BAscii None hl BAscii None) (fun _ => VStr s) (wire_bytes (mkF nm bl BAscii None hl BAscii None) raw)).
+Proof. exact ascii_leaf_rgood. Qed.
+Print Assumptions C01_ascii_leaf_member.
+
+Example C01_leaf_kinds_example :
+  let vv (z : Z) := fun _ : name => VInt z in
+  let sm := mkF [97] 8 BInt (Some EncSM) true BInt None in
+  let tc := mkF [98] 16 BInt None false BInt None in
+  let bf := mkF [99] 24 BBytes None true BBytes None in
+  let st := mkF [100] 16 BAscii None true BAscii None in
+  let rs := [leaf_rm (mkF [115] 8 BUint None true BUint (Some (VInt 34))) (vv 34) [34];
+             leaf_rm sm (vv (-2)) (wire_bytes sm 130);
+             leaf_rm tc (vv (-2)) (wire_bytes tc 65534);
+             leaf_rm bf (fun _ => VBytes [1; 2; 3]) (wire_bytes bf (be_int [1; 2; 3]));
+             leaf_rm st (fun _ => VStr [72; 105]) (wire_bytes st 18537)] in
+  rbytes rs = [34; 130; 254; 255; 1; 2; 3; 72; 105] /\
+  encode_msg (map m_p (rms rs)) None (VDict (in_dict (rms rs))) = Ok (rbytes rs, false) /\
+  decode_msg (map m_p (rms rs)) (rbytes rs) = Ok (VDict (out_dict (rms rs))).
+Proof. exact leaf_kinds_example. Qed.
+Print Assumptions C01_leaf_kinds_example.
